@@ -8,7 +8,7 @@
 // What is asserted: the result is `Value::Number(d)` with `d.scale() == 0` and
 //                `d.mantissa() == n` (as i128; for u128 compared as u128 with mantissa >= 0).
 //
-// Input layout (keep in sync with LAYOUTS in run_kani.py): a single `n: T`
+// Input layout (keep in sync with the "layout" entries of HARNESSES in run_kani.py): a single `n: T`
 // (bool: 1 byte; f32/f64: raw IEEE bits, little endian), then `_marker: u8` (see cex_marker).
 
 use super::Value;
@@ -113,9 +113,10 @@ macro_rules! k2_float_nonfinite {
             kani::cover!(x.is_infinite() && x > 0.0, "k2_input_pos_inf");
             kani::cover!(x.is_infinite() && x < 0.0, "k2_input_neg_inf");
             let v = Value::from(x);
+            // (not inside the Number arm: a fixed crate may well return a non-Number here)
+            kani::cover!(true, "k2_conversion_returned");
             match v {
                 Value::Number(d) => {
-                    kani::cover!(true, "k2_reached_number");
                     cex_marker();
                     assert!(
                         !(d.mantissa() == 0),
